@@ -83,6 +83,27 @@ func OriginLength(p *core.Prog, r *core.Report, endToo bool) {
 					if !reads {
 						return true
 					}
+					// the test of the rest of the line decides on its own: on the false edge of the condition the
+					// reading comparison is known false (it is the condition, or a disjunct of it); conjoined with
+					// another test ("only on the last line") it is skipped for the lines where that test is false
+					alone := false
+					core.Facts(is.Cond, false, func(atom ast.Expr, val bool) {
+						if val {
+							return
+						}
+						ast.Inspect(atom, func(m ast.Node) bool {
+							if x, ok := m.(*ast.SliceExpr); ok && core.ObjOf(info, x.X) == line && x.Low != nil && core.ObjOf(info, x.Low) == extent {
+								alone = true
+							}
+							if c, ok := m.(*ast.CallExpr); ok && core.IsBuiltin(info, c, "len") && len(c.Args) == 1 && core.ObjOf(info, c.Args[0]) == line {
+								alone = true
+							}
+							return true
+						})
+					})
+					if !alone {
+						return true
+					}
 					// the test sits after the group loops of the line (not inside them) and returns an error
 					inLoop := 0
 					for _, st := range enclosingLoops(fd.Body, is) {
